@@ -194,6 +194,21 @@ func evalC18SH(sigs []c18Sig, outs string) Result {
 		h.Add(svcs[i : i+n]...)
 		i += n
 	}
+	// the slices given to Add were pieces of one array of the caller, who now reuses it: what is
+	// registered is the services, not the caller's memory
+	for j := range svcs {
+		svcs[j] = &fakeservice.Service{
+			OnStart: func(_ context.Context) error { return nil },
+			OnShutdown: func(_ context.Context) error {
+				if !cleanup.Load() {
+					mu.Lock()
+					calls = append(calls, 99)
+					mu.Unlock()
+				}
+				return nil
+			},
+		}
+	}
 	retCh := make(chan int, 1)
 	go func() {
 		defer func() {
